@@ -351,6 +351,16 @@ class Engine:
             if isinstance(v.n, int):
                 return v.n != 0
             return I(v.n) != 0
+        if type(v).__name__ == "NpArr":
+            if v.ndim == 0:
+                t = v.at()
+                return t if t.sort() == BoolS else (t != 0)
+            if v.ndim == 1:
+                if not self.decide(I(v.shape[0]) == 1):
+                    raise PyRaise("ValueError", ("truth value of an array with more than one element is ambiguous",))
+                t = v.at(0)
+                return t if t.sort() == BoolS else (t != 0)
+            raise Unsupported("truthiness of a 2-d array")
         if isinstance(v, DictVal):
             raise Unsupported("truthiness of dict")
         if isinstance(v, Ref):
@@ -795,9 +805,13 @@ class Engine:
             return LibCallable("object.__setattr__", _osa)
         if isinstance(obj, ModuleVal):
             d = obj.name + "." + name
+            if obj.name == "numpy" and name in ("int8", "int16", "int32", "uint8", "uint16", "uint32", "float64"):
+                return ClassVal(name)
             if d in self.lib:
                 return LibCallable(d, self.lib[d])
             return self.resolve_dotted(d)
+        if type(obj).__name__ == "NpArr":
+            return BoundLib(obj, name)
         if isinstance(obj, ClassVal):
             if obj.name in self.prog.classes:
                 m = self.prog.find_method(obj.name, name)
@@ -959,6 +973,9 @@ class Engine:
 
     def binop(self, op, a, b, node=None):
         a, b = self.force(a), self.force(b)
+        if type(a).__name__ == "NpArr" or type(b).__name__ == "NpArr":
+            from . import npmodel
+            return npmodel.arr_binop(self, op, a, b)
         if isinstance(a, (float,)):
             a = Fl(a)
         if isinstance(b, (float,)):
@@ -1118,6 +1135,13 @@ class Engine:
 
     def compare(self, op, a, b, node=None):
         a, b = self.force(a), self.force(b)
+        if type(a).__name__ == "NpArr" and not type(b).__name__ == "NpArr":
+            from . import npmodel
+            fn = {ast.GtE: lambda x, y: x >= y, ast.Gt: lambda x, y: x > y, ast.LtE: lambda x, y: x <= y,
+                  ast.Lt: lambda x, y: x < y}.get(type(op))
+            if fn is None:
+                raise Unsupported("array comparison %s" % type(op).__name__)
+            return npmodel.NpArr(a.shape, lambda *idx: fn(a.at(*idx), R(b)), "cmp")
         if isinstance(op, ast.Is):
             return self.is_same(a, b)
         if isinstance(op, ast.IsNot):
@@ -1264,6 +1288,19 @@ class Engine:
 
     def getitem(self, obj, idx, node=None):
         obj, idx = self.force(obj), self.force(idx)
+        if type(obj).__name__ == "NpArr":
+            from . import npmodel
+            if not is_int(idx):
+                raise Unsupported("array index %r" % (idx,))
+            n0 = I(obj.shape[0])
+            if not self.decide(z3.And(I(idx) >= -n0, I(idx) < n0)):
+                raise PyRaise("IndexError", (), node)
+            k = z3.simplify(I(idx) + n0) if self.decide(I(idx) < 0) else z3.simplify(I(idx))
+            if obj.ndim == 2:
+                return npmodel.NpArr(obj.shape[1:], lambda i: obj.at(k, i), "row")
+            if obj.ndim == 1:
+                return Fl(obj.at(k))
+            raise PyRaise("IndexError", (), node)
         if obj is None:
             raise PyRaise("TypeError", ("'NoneType' object is not subscriptable",), node)
         if isinstance(obj, Ref):
@@ -1826,7 +1863,7 @@ class Engine:
             if name == "get":
                 key = args[0]
                 default = args[1] if len(args) > 1 else None
-                if not isinstance(key, str):
+                if not isinstance(key, (str, int)) or isinstance(key, bool):
                     raise Unsupported("dict.get with non-literal key")
                 if key in obj.entries:
                     p, v = obj.entries[key]
